@@ -9,6 +9,7 @@ import OFV.Spec.C17
 import OFV.Proofs.C17
 import OFV.Proofs.C17Rdm
 import OFV.Proofs.C17Car
+import OFV.Proofs.C17Hole
 import Mathlib.Data.Matrix.Mul
 import Mathlib.LinearAlgebra.Matrix.Notation
 
@@ -17,17 +18,21 @@ open OFV OFV.Model.C17 OFV.Spec.C17
 
 /-! ## truncation of `low_rank_two_body_decomposition` -/
 
-/-- for every weight list and every rank `1 ≤ L ≤ full_rank` the reported truncation value
-`truncation_errors[L - 1]` is exactly the weight of the discarded terms `Σ_{l ≥ L} w_l` -/
-theorem truncation_value_is_discarded_weight (ws : List Rat) (L : Nat) (h1 : 1 ≤ L) (h2 : L ≤ ws.length) :
+/-- for every non-empty weight list and EVERY rank `0 ≤ L ≤ full_rank` the reported truncation value is exactly
+the weight of the discarded terms `Σ_{l ≥ L} w_l` (rank `0`: nothing is kept, the whole weight is reported — the
+behaviour since the repair 438e3030; before it the value was `0`) -/
+theorem truncation_value_is_discarded_weight (ws : List Rat) (L : Nat) (hne : ws ≠ []) (h2 : L ≤ ws.length) :
     truncationValue ws L = some (discarded ws L) := by
   unfold truncationValue discarded
-  have : L ≠ 0 := by omega
-  simp only [this, if_false]
-  have h := truncationErrors_get ws (L - 1) (by omega)
-  have e : L - 1 + 1 = L := by omega
-  rw [e] at h
-  exact h
+  by_cases h0 : L = 0
+  · subst h0
+    simp only [if_true, List.drop_zero]
+    exact cumsum_getLast ws hne
+  · simp only [h0, if_false]
+    have h := truncationErrors_get ws (L - 1) (by omega)
+    have e : L - 1 + 1 = L := by omega
+    rw [e] at h
+    exact h
 
 /-- threshold mode (`final_rank=None`), any non-empty weight list, any threshold `≥ 0`:
 `max_rank = 1 + argmax(truncation_errors <= threshold)` is a valid rank, the reported value is the discarded
@@ -64,7 +69,7 @@ theorem threshold_rank_is_minimal (ws : List Rat) (thr : Rat) (hne : ws ≠ []) 
       simp only [bs, List.getElem?_map, herr, Option.map_some]
     rw [this] at hfirst
     simpa using hfirst
-  refine ⟨by omega, by omega, truncation_value_is_discarded_weight ws _ (by omega) (by omega), ?_, ?_⟩
+  refine ⟨by omega, by omega, truncation_value_is_discarded_weight ws _ hne (by omega), ?_, ?_⟩
   · unfold discarded; rw [hL, Nat.add_comm]; exact hle
   · intro L' h1 h2
     have hj : L' - 1 < argmaxTrue bs := by omega
@@ -83,14 +88,14 @@ theorem threshold_rank_is_minimal (ws : List Rat) (thr : Rat) (hne : ws ≠ []) 
 example : maxRank [4, 2, 1] (5/2) none = 2 ∧ truncationValue [4, 2, 1] 2 = some 1 ∧
     minimalRank [4, 2, 1] (5/2) 2 = true := by decide +kernel
 
-/-- Known finding F17a, for EVERY non-empty weight list: with `final_rank = 0` nothing is kept, the whole
-weight `Σ w_l` is discarded, but the reported value (Python index `-1`) is `0` -/
-theorem final_rank_zero_reports_zero_counterexample (ws : List Rat) (hne : ws ≠ []) :
-    maxRank ws 0 (some 0) = 0 ∧ truncationValue ws 0 = some 0 ∧ discarded ws 0 = ws.sum := by
+/-- `final_rank = 0`: no term is kept and the reported value is the total weight `Σ w_l` -/
+theorem final_rank_zero_reports_total_weight (ws : List Rat) (hne : ws ≠ []) :
+    maxRank ws 0 (some 0) = 0 ∧ truncationValue ws 0 = some ws.sum ∧ discarded ws 0 = ws.sum := by
   refine ⟨rfl, ?_, by simp [discarded]⟩
-  unfold truncationValue
-  simp only [if_true]
-  exact truncationErrors_getLast ws hne
+  rw [truncation_value_is_discarded_weight ws 0 hne (Nat.zero_le _)]
+  simp [discarded]
+
+example : truncationValue [4, 2, 1] 0 = some 7 ∧ truncationValue [4, 2, 1] 3 = some 0 := by decide +kernel
 
 /-! ## `spinorb_from_spatial` / `get_tensors_from_integrals` : which blocks are filled -/
 
@@ -193,17 +198,40 @@ theorem two_hole_maps_inverse (tpdm : C4) (opdm : C2) (hsym : ∀ p q r s, tpdm 
 example : ∀ p q r s, (fun (_ _ _ _ : Nat) => (0 : GQ)) q p s r = (fun (_ _ _ _ : Nat) => (0 : GQ)) p q r s :=
   fun _ _ _ _ => rfl
 
-/-- `map_one_pdm_to_one_hole_dm` and `map_one_hole_dm_to_one_pdm` (both `eye - m`) are mutually inverse -/
+/-- `map_one_pdm_to_one_hole_dm` and `map_one_hole_dm_to_one_pdm` (both `eye - m.T` since the repair e512c44c) are
+mutually inverse, for all matrices (complex, non-symmetric included) -/
 theorem one_hole_maps_inverse (m : C2) (p q : Nat) : oneMinus (oneMinus m) p q = m p q :=
   oneMinus_involution m p q
 
-/-- Known finding F17b: the documented 1-hole-RDM is `⟨a_p a†_q⟩ = δ_pq - ⟨a†_q a_p⟩ = δ_pq - D[q][p]`; the
-code computes `δ_pq - D[p][q]`.  For the 1-RDM of `(|10⟩ + i|01⟩)/√2`, `D = [[1/2, i/2], [-i/2, 1/2]]`, entry
-`(0,1)` comes out as `-i/2` instead of `+i/2`. -/
-theorem one_hole_map_not_transposed_counterexample :
+/-- the one-hole map is the transposed complement: `oqdm[p,q] = δ_pq − opdm[q,p]` (`⟨a_p a†_q⟩ = δ_pq − ⟨a†_q a_p⟩`) -/
+theorem one_hole_map_transposed (m : C2) (p q : Nat) : oneMinus m p q = delta p q - m q p := rfl
+
+/-- **The two routes to the 1-hole-RDM agree**, for every 1-RDM / 2-RDM pair that satisfies the trace condition
+`tr D = N` and the contraction condition `Σ_r tpdm[p,r,r,q] = (N − 1) D[p,q]` of an `N`-particle state — complex,
+non-symmetric `D` included: contracting `map_two_pdm_to_two_hole_dm(tpdm, D)` over its inner indices and dividing by
+`holes − 1 = n − N − 1` (`map_two_hole_dm_to_one_hole_dm`) gives `map_one_pdm_to_one_hole_dm(D) = eye − D.T`.
+(With the untransposed `eye − D` of the code before the repair this fails whenever `D` is not symmetric.) -/
+theorem one_hole_agrees_with_two_hole_contraction (n : Nat) (N : Rat) (tpdm : C4) (opdm : C2)
+    (htr : gsumRange n (fun r => opdm r r) = ⟨N, 0⟩)
+    (hc : ∀ p q, p < n → q < n → gsumRange n (fun r => tpdm p r r q) = GQ.smul (N - 1) (opdm p q))
+    (hd : (n : Rat) - N - 1 ≠ 0) (p q : Nat) (hp : p < n) (hq : q < n) :
+    contract n (twoPdmToTwoHole tpdm opdm) ((n : Rat) - N - 1) p q = oneMinus opdm p q := by
+  unfold contract
+  rw [two_hole_contraction n N tpdm opdm htr hc p q hp hq]
+  refine GQ.ext ?_ ?_ <;> simp [GQ.smul] <;> field_simp
+
+-- non-vacuity: the 1-RDM of (|100⟩ + i|010⟩)/√2 on three modes (N = 1, complex, NOT symmetric; its 2-RDM is 0)
+example :
     let D : C2 := fun p q => if p = 0 ∧ q = 1 then ⟨0, 1/2⟩ else if p = 1 ∧ q = 0 then ⟨0, -1/2⟩ else
       if p = q ∧ p < 2 then ⟨1/2, 0⟩ else 0
-    oneMinus D 0 1 = ⟨0, -1/2⟩ ∧ delta 0 1 - D 1 0 = ⟨0, 1/2⟩ := by decide +kernel
+    gsumRange 3 (fun r => D r r) = ⟨1, 0⟩ ∧ D 0 1 ≠ D 1 0 ∧
+    (∀ p q, p < 3 → q < 3 → gsumRange 3 (fun r => (fun _ _ _ _ => (0 : GQ)) p r r q) = GQ.smul ((1 : Rat) - 1) (D p q)) ∧
+    contract 3 (twoPdmToTwoHole (fun _ _ _ _ => 0) D) ((3 : Rat) - 1 - 1) 0 1 = ⟨0, 1/2⟩ ∧ oneMinus D 0 1 = ⟨0, 1/2⟩ := by
+  refine ⟨by decide +kernel, by decide +kernel, ?_, by decide +kernel, by decide +kernel⟩
+  intro p q hp hq
+  have h1 : p = 0 ∨ p = 1 ∨ p = 2 := by omega
+  have h2 : q = 0 ∨ q = 1 ∨ q = 2 := by omega
+  rcases h1 with rfl | rfl | rfl <;> rcases h2 with rfl | rfl | rfl <;> decide +kernel
 
 /-! ## The operator identities behind the formulas (any ring, any representation of the CAR)
 
